@@ -22,15 +22,16 @@ VALUES = {
     "CKA_ID": [b"", b"id-0", b"id-1", b"id-2" * 12],
     "CKA_APPLICATION": [b"app-0", b"app-1", b""],
     "CKA_OBJECT_ID": [b"\x06\x03\x55\x04\x03", b"\x06\x03\x55\x04\x0a"],
-    "CKA_VALUE": [b"", b"value-1", b"W" * 300, b"\x00\x01\x02"],
+    "CKA_VALUE": [b"", b"value-1", b"W" * 300, b"\x00\x01\x02", bytes(range(256)) * 17, b"Z" * 4096, b"Y" * 4095],
     "CKA_SUBJECT": [b"subj-0", b"subj-1", b""],
     "CKA_ISSUER": [b"issuer-0", b"issuer-1"],
     "CKA_SERIAL_NUMBER": [b"\x02\x01\x01", b"\x02\x01\x02"],
     "CKA_START_DATE": [b"20240101", b""],
     "CKA_END_DATE": [b"20301231", b""],
-    "CKA_ALLOWED_MECHANISMS": [[], ["CKM_AES_CBC"], ["CKM_RSA_PKCS", "CKM_SHA256_RSA_PKCS"]],
-    "CKA_WRAP_TEMPLATE": [[("CKA_EXTRACTABLE", True)], [("CKA_CLASS", "CKO_SECRET_KEY"), ("CKA_LABEL", b"wt")]],
-    "CKA_UNWRAP_TEMPLATE": [[("CKA_SENSITIVE", True)], [("CKA_KEY_TYPE", "CKK_AES"), ("CKA_ID", b"ut")]],
+    "CKA_ALLOWED_MECHANISMS": [["CKM_AES_GCM", "CKM_AES_CBC", "CKM_AES_ECB"], ["CKM_AES_CBC"], ["CKM_RSA_PKCS", "CKM_SHA256_RSA_PKCS"], []],
+    "CKA_WRAP_TEMPLATE": [[("CKA_EXTRACTABLE", True)], [("CKA_CLASS", "CKO_SECRET_KEY"), ("CKA_LABEL", b"wt")], [("CKA_LABEL", b"only")],
+                          [("CKA_KEY_TYPE", "CKK_AES"), ("CKA_SENSITIVE", False), ("CKA_ID", b"")]],
+    "CKA_UNWRAP_TEMPLATE": [[("CKA_SENSITIVE", True)], [("CKA_KEY_TYPE", "CKK_AES"), ("CKA_ID", b"ut")], [("CKA_CLASS", "CKO_SECRET_KEY"), ("CKA_ID", b"last-is-bytes" * 3)]],
 }
 BOOLS = [True, False]
 
@@ -101,9 +102,11 @@ class Obj:
 
 
 class World:
-    def __init__(self, ctx, w, tokens, prog, check_views="fail", probe_handles=False, judge_access=True):
+    def __init__(self, ctx, w, tokens, prog, check_views="fail", probe_handles=False, judge_access=True, stage=None, ref=None):
         self.ctx = ctx
         self.w = w
+        self.stage = stage          # needed by the restart / reinit operations
+        self.ref = ref              # reference worker: enables the independent decode of the token directory
         self.tokens = tokens
         self.prog = prog
         self.slots = [t.slot for t in tokens]
@@ -122,6 +125,7 @@ class World:
         self.labels = set()
         self.counts = {}
         self.nontrivial = False
+        self.after_step = None      # optional hook(op, rv) called after every operation
 
     # -- helpers -------------------------------------------------------------------------------------
     def V(self, what):
@@ -359,6 +363,8 @@ class World:
             if failed:
                 self.count("failed_calls")
                 self.count("failed_" + op[0])
+            if self.after_step is not None:
+                self.after_step(op, rv)
             if self.check_views == "always" or (self.check_views == "fail" and failed and op[0] in (
                     "create", "copy", "set", "destroy", "gen", "genpair", "unwrap", "derive")):
                 self.check_all_views("after %s -> %s" % (op[0], K.rvname(rv) if rv is not None else "-"))
@@ -487,12 +493,18 @@ class World:
             self._judge_creation(sh, o, "C_CreateObject")
             # supplied values must be what is read back
             for e in tpl:
-                if e[0] in o.attrs and e[1] in ("bool", "ulong", "bytes") and e[0] not in (0x0000F123, 0x0000F124):
+                if e[0] in o.attrs and e[1] in ("bool", "ulong", "bytes", "mechs", "tpl") and e[0] not in (0x0000F123, 0x0000F124):
                     want = e[2]
+                    have = o.attrs[e[0]]
                     if e[1] == "bool":
                         want = bool(want)
-                    if o.attrs[e[0]] != want and not bad:
-                        raise self.V("C_CreateObject: attribute %s read back as %r, supplied %r" % (K.name("CKA", e[0]), o.attrs[e[0]], want))
+                    elif e[1] == "mechs":
+                        want = sorted(set(want))
+                    elif e[1] == "tpl":
+                        want = sorted((x[0], bool(x[2]) if x[1] == "bool" else x[2]) for x in want)
+                        have = sorted((x[0], x[1]) for x in have) if isinstance(have, list) else have
+                    if have != want and not bad:
+                        raise self.V("C_CreateObject: attribute %s read back as %r, supplied %r" % (K.name("CKA", e[0]), have, want))
         else:
             if r.get("h", 0) not in (0, None) and False:
                 pass
@@ -795,6 +807,256 @@ class World:
         return rv
 
 
+    # -- unwrap / derive / PIN change / token re-initialisation (C06, C09) -------------------------------------------------
+    def _helper_aes(self, sh, value=b"H" * 16):
+        r = self.w.C_CreateObject(s=sh, tpl=T(("CKA_CLASS", "CKO_SECRET_KEY"), ("CKA_KEY_TYPE", "CKK_AES"), ("CKA_VALUE", value), ("CKA_PRIVATE", False),
+                                               ("CKA_TOKEN", False), ("CKA_EXTRACTABLE", True), ("CKA_SENSITIVE", False), ("CKA_WRAP", True), ("CKA_UNWRAP", True),
+                                               ("CKA_DERIVE", True), ("CKA_ENCRYPT", True), ("CKA_LABEL", b"helper")))
+        return r["h"] if r["rv"] == K.CKR_OK else None
+
+    def secret_value(self, oid, n=24):
+        """a high-entropy-looking known value unique to object oid"""
+        import hashlib
+        return hashlib.sha256(b"verif-secret-%d-%d" % (oid, self.ctx.seed)).digest()[:n]
+
+    def op_unwrap(self, si, kind, token, private, mal, bad):
+        sh = self.live_sess(si)
+        st_ = self.state(sh)
+        if st_ is None:
+            return None
+        oid, label = self._marker()
+        hk = self._helper_aes(sh)
+        if hk is None:
+            return None
+        try:
+            klen = {"aes": 16, "generic": 24, "des3": 24}[kind]
+            val = self.secret_value(oid, klen)
+            if kind == "des3":
+                val = bytes((b & 0xFE) | (1 if bin(b & 0xFE).count("1") % 2 == 0 else 0) for b in val)
+            kt = {"aes": "CKK_AES", "generic": "CKK_GENERIC_SECRET", "des3": "CKK_DES3"}[kind]
+            tw = self.w.C_CreateObject(s=sh, tpl=T(("CKA_CLASS", "CKO_SECRET_KEY"), ("CKA_KEY_TYPE", kt), ("CKA_VALUE", val), ("CKA_PRIVATE", False), ("CKA_TOKEN", False),
+                                                   ("CKA_EXTRACTABLE", True), ("CKA_SENSITIVE", False), ("CKA_LABEL", b"twin")))
+            if tw["rv"] != K.CKR_OK:
+                return None
+            mech = {"m": K.CKM_AES_KEY_WRAP_PAD}
+            wr = self.w.C_WrapKey(s=sh, mech=mech, wkey=hk, key=tw["h"], out=256)
+            self.w.C_DestroyObject(s=sh, o=tw["h"])
+            if wr["rv"] != K.CKR_OK:
+                return None
+            blob = bytes.fromhex(wr["out"]["data"])
+            if mal == "flip":
+                blob = blob[:5] + bytes([blob[5] ^ 0x10]) + blob[6:]
+            elif mal == "trunc":
+                blob = blob[:-8]
+            tpl = T(("CKA_CLASS", "CKO_SECRET_KEY"), ("CKA_KEY_TYPE", kt))
+            if token is not None:
+                tpl.append(A("CKA_TOKEN", token))
+            if private is not None:
+                tpl.append(A("CKA_PRIVATE", private))
+            tpl.append(A("CKA_LABEL", label))
+            tpl += T(("CKA_SENSITIVE", False), ("CKA_EXTRACTABLE", True))
+            if bad:
+                tpl = corrupt(tpl, kind, bad[0], bad[1], "unwrap")
+            r = self.w.C_UnwrapKey(s=sh, mech=mech, key=hk, data=blob.hex(), tpl=tpl)
+            rv = r["rv"]
+            if rv == K.CKR_OK:
+                if mal:
+                    raise self.V("C_UnwrapKey accepted a %s blob" % mal)
+                o = self._register(sh, r["h"], oid, st_[0], bool(token), private if private is not None else True, kind, label, "C_UnwrapKey")
+                self._judge_creation(sh, o, "C_UnwrapKey")
+                o.known = {K.CKA_VALUE: val}
+                self.count("unwrap_ok")
+            else:
+                if r.get("h", 0) != 0:
+                    raise self.V("failed C_UnwrapKey (%s) stored handle %d" % (K.rvname(rv), r["h"]))
+                if mal or bad:
+                    self.count("unwrap_rejected_bad_input")
+            return rv
+        finally:
+            self.w.C_DestroyObject(s=sh, o=hk)
+
+    def op_derive(self, si, token, private, bad):
+        sh = self.live_sess(si)
+        st_ = self.state(sh)
+        if st_ is None:
+            return None
+        oid, label = self._marker()
+        hk = self._helper_aes(sh, self.secret_value(oid, 16))
+        if hk is None:
+            return None
+        try:
+            tpl = T(("CKA_CLASS", "CKO_SECRET_KEY"), ("CKA_KEY_TYPE", "CKK_GENERIC_SECRET"), ("CKA_VALUE_LEN", 32))
+            if token is not None:
+                tpl.append(A("CKA_TOKEN", token))
+            if private is not None:
+                tpl.append(A("CKA_PRIVATE", private))
+            tpl.append(A("CKA_LABEL", label))
+            tpl += T(("CKA_SENSITIVE", False), ("CKA_EXTRACTABLE", True))
+            if bad:
+                tpl = corrupt(tpl, "generic", bad[0], bad[1], "derive")
+            data = self.secret_value(oid + 100000, 32)
+            r = self.w.C_DeriveKey(s=sh, mech={"m": K.CKM_AES_ECB_ENCRYPT_DATA, "p": {"strdata": data.hex()}}, key=hk, tpl=tpl)
+            rv = r["rv"]
+            if rv == K.CKR_OK:
+                o = self._register(sh, r["h"], oid, st_[0], bool(token), private if private is not None else True, "generic", label, "C_DeriveKey")
+                self._judge_creation(sh, o, "C_DeriveKey")
+                self.count("derive_ok")
+            else:
+                if r.get("h", 0) != 0:
+                    raise self.V("failed C_DeriveKey (%s) stored handle %d" % (K.rvname(rv), r["h"]))
+                if bad:
+                    self.count("derive_rejected_bad_template")
+            return rv
+        finally:
+            self.w.C_DestroyObject(s=sh, o=hk)
+
+    def op_setpin(self, si, n):
+        """the logged-in user changes the PIN (the master key gets re-wrapped)"""
+        sh = self.live_sess(si)
+        st_ = self.state(sh)
+        if st_ is None or st_[2] != "user" or not st_[1]:
+            return None
+        tok = st_[0]
+        new = b"changed-pin-%d-%d" % (n, self.step)
+        rv = self.w.C_SetPIN(s=sh, old=hx(self.tokens[tok].user_pin), new=hx(new))["rv"]
+        if rv == K.CKR_OK:
+            self.tokens[tok].user_pin = new
+            self.count("pin_changes")
+        return rv
+
+    def op_inittoken(self, tok):
+        """re-initialise token `tok`: all its objects and the user PIN are gone; the SO sets a new user PIN"""
+        tok = tok % len(self.tokens)
+        self.w.C_CloseAllSessions(slot=self.slots[tok])
+        self.on_all_closed(tok)
+        rv = self.w.C_InitToken(slot=self.slots[tok], pin=hx(self.tokens[tok].so_pin), label=hx((self.tokens[tok].label.encode() + b" " * 32)[:32]))["rv"]
+        if rv != K.CKR_OK:
+            raise self.V("C_InitToken with the correct SO PIN and no session failed: %s" % K.rvname(rv))
+        for o in self.objs.values():
+            if o.tok == tok and o.alive:
+                self.kill_obj(o)
+        r = self.w.C_OpenSession(slot=self.slots[tok], flags=K.CKF_SERIAL_SESSION | K.CKF_RW_SESSION)
+        sh = r["h"]
+        self.all_handles.add(sh)
+        new = b"reinit-pin-%d" % self.step
+        if self.w.C_Login(s=sh, user=K.CKU_SO, pin=hx(self.tokens[tok].so_pin))["rv"] != 0 or self.w.C_InitPIN(s=sh, pin=hx(new))["rv"] != 0:
+            raise self.V("SO login / C_InitPIN after re-initialisation failed")
+        self.tokens[tok].user_pin = new
+        self.w.C_Logout(s=sh)
+        self.w.C_CloseSession(s=sh)
+        self.ever_sessions.append(sh)
+        self.count("token_reinits")
+        return rv
+
+    # -- persistence (C05 / C06 / C09): restarts, re-initialisation, independent decode ---------------------------------
+    def _all_gone(self):
+        """model effect of C_Finalize or of the process ending"""
+        for tok in range(len(self.tokens)):
+            self.on_all_closed(tok)
+        # handle values are only unique while the library stays initialised
+        self.all_handles = set()
+        self.issued = []
+        self.ever_sessions = []
+
+    def op_restart(self):
+        self._all_gone()
+        r = self.stage.restart()
+        self.w = self.stage.w
+        if r["rv"] != K.CKR_OK:
+            raise self.V("C_Initialize in a new process failed: %s" % K.rvname(r["rv"]))
+        self.count("restarts")
+        self.verify_persistence("after restart")
+        return None
+
+    def op_reinit(self):
+        self._all_gone()
+        r1, r2 = self.stage.reinit()
+        if r1["rv"] != K.CKR_OK or r2["rv"] != K.CKR_OK:
+            raise self.V("C_Finalize / C_Initialize failed: %s %s" % (K.rvname(r1["rv"]), K.rvname(r2["rv"])))
+        self.count("reinits")
+        self.verify_persistence("after C_Finalize/C_Initialize")
+        return None
+
+    def verify_persistence(self, why):
+        """with no session open: every token object of the model is there with identical values (user view), nothing else;
+        then the token directory is decoded independently and compared with the same model."""
+        for tok in range(len(self.tokens)):
+            r = self.w.C_OpenSession(slot=self.slots[tok], flags=K.CKF_SERIAL_SESSION | K.CKF_RW_SESSION)
+            if r["rv"] != K.CKR_OK:
+                raise self.V("%s: C_OpenSession failed: %s" % (why, K.rvname(r["rv"])))
+            sh = r["h"]
+            if sh in self.all_handles:
+                raise self.V("%s: session handle %d issued twice" % (why, sh))
+            self.all_handles.add(sh)
+            self.sessions[sh] = (tok, True)
+            self.ever_sessions.append(sh)
+            rv = self.w.C_Login(s=sh, user=K.CKU_USER, pin=hx(self.tokens[tok].user_pin))["rv"]
+            if rv != K.CKR_OK:
+                raise self.V("%s: user login failed: %s" % (why, K.rvname(rv)))
+            self.login[tok] = "user"
+            self.check_view(sh, why)
+            self.w.C_Logout(s=sh)
+            self.on_logout(tok)
+            self.w.C_CloseSession(s=sh)
+            self.on_session_closed(sh)
+            self.count("persistence_views_checked")
+        if self.ref is not None and self.stage is not None and self.stage.sb.backend == "file":
+            self.verify_directory(why)
+
+    @staticmethod
+    def _norm_model(t, v):
+        if kind_of(t) == "tpl" and isinstance(v, list):
+            return sorted((tt, vv) for tt, vv in v)
+        return v
+
+    def verify_directory(self, why):
+        from .store import FormatError, token_dirs
+        try:
+            dirs = token_dirs(self.stage.sb.tokendir, self.ref)
+        except FormatError as e:
+            raise self.V("%s: the token directory cannot be decoded: %s" % (why, e))
+        by_label = {}
+        for td in dirs:
+            if td.errors:
+                raise self.V("%s: undecodable object file(s): %s" % (why, td.errors))
+            lab = td.label()
+            toks = [i for i, t in enumerate(self.tokens) if t.label == lab]
+            if not toks:
+                continue
+            tok = toks[0]
+            key = td.master_key(self.tokens[tok].user_pin)
+            key_so = td.master_key(self.tokens[tok].so_pin, so=True)
+            if key is None or key_so is None or key != key_so:
+                raise self.V("%s: the PIN blobs of token %s do not both unwrap to the same 32-byte key (user %s, so %s)" % (
+                    why, lab, key is not None, key_so is not None))
+            objs = td.plain_objects(key)
+            want = {o.label: o for o in self.objs.values() if o.alive and o.token and o.tok == tok}
+            seen = set()
+            for fn, attrs in objs.items():
+                labhex = attrs.get(K.CKA_LABEL)
+                lab_b = bytes.fromhex(labhex) if isinstance(labhex, str) and not labhex.startswith("UNDEC") else None
+                o = want.get(lab_b)
+                if o is None:
+                    raise self.V("%s: object file %s (label %r) is not an object the model knows as alive: %s" % (
+                        why, fn, lab_b, {K.name("CKA", t): v for t, v in list(attrs.items())[:8]}))
+                seen.add(lab_b)
+                for t, dv in attrs.items():
+                    if isinstance(dv, str) and dv.startswith("UNDECRYPTABLE"):
+                        raise self.V("%s: attribute %s of private object %d (%s, stored by %s) is not a valid ciphertext under the token's master key: %s" % (
+                            why, K.name("CKA", t), o.oid, o.cls, o.how, dv))
+                for t, mv in o.attrs.items():
+                    if t not in attrs:
+                        raise self.V("%s: attribute %s of object %d (%s) is returned by the API but is not in its file" % (why, K.name("CKA", t), o.oid, o.cls))
+                    dv = attrs[t]
+                    nd = sorted((a_, b_) for a_, b_ in dv) if (isinstance(dv, list) and kind_of(t) == "tpl") else dv
+                    if self._norm_model(t, mv) != nd:
+                        raise self.V("%s: attribute %s of object %d (%s): file decodes to %r, the API returned %r" % (
+                            why, K.name("CKA", t), o.oid, o.cls, dv if not isinstance(dv, str) else dv[:80], mv if not isinstance(mv, str) else mv[:80]))
+            missing = set(want) - seen
+            if missing:
+                raise self.V("%s: token object(s) %s have no file in the token directory" % (why, sorted(missing)))
+            self.count("directories_decoded")
+
     # -- C01: use of an object handle through every entry point that accepts one --------------------------------
     USE_FNS = ["C_GetAttributeValue", "C_SetAttributeValue", "C_SetAttributeValue:flag", "C_CopyObject", "C_DestroyObject", "C_GetObjectSize",
                "C_EncryptInit", "C_DecryptInit", "C_SignInit", "C_VerifyInit", "C_SignRecoverInit", "C_VerifyRecoverInit",
@@ -997,8 +1259,10 @@ def extras_st(max_size=3):
     names = ["CKA_ID", "CKA_APPLICATION", "CKA_VALUE", "CKA_SUBJECT", "CKA_ISSUER", "CKA_SERIAL_NUMBER", "CKA_ENCRYPT",
              "CKA_DECRYPT", "CKA_SIGN", "CKA_VERIFY", "CKA_WRAP", "CKA_UNWRAP", "CKA_DERIVE", "CKA_SENSITIVE",
              "CKA_EXTRACTABLE", "CKA_MODIFIABLE", "CKA_COPYABLE", "CKA_DESTROYABLE", "CKA_OBJECT_ID",
-             "CKA_ALLOWED_MECHANISMS", "CKA_WRAP_TEMPLATE", "CKA_UNWRAP_TEMPLATE"]
-    return st.lists(st.tuples(st.sampled_from(names), st.integers(0, 3)).map(list), max_size=max_size)
+             "CKA_ALLOWED_MECHANISMS", "CKA_WRAP_TEMPLATE", "CKA_UNWRAP_TEMPLATE", "CKA_START_DATE", "CKA_END_DATE"]
+    rich = ["CKA_ALLOWED_MECHANISMS", "CKA_WRAP_TEMPLATE", "CKA_UNWRAP_TEMPLATE", "CKA_START_DATE", "CKA_END_DATE", "CKA_VALUE", "CKA_ID"]
+    name = st.one_of(st.sampled_from(names), st.sampled_from(rich))     # the non-default attribute kinds get half the weight
+    return st.lists(st.tuples(name, st.integers(0, 7)).map(list), max_size=max_size)
 
 
 def bad_st(p_bad):
@@ -1034,6 +1298,12 @@ def op_strategies(classes=LIGHT_CLASSES, p_bad=0.0, with_gen=True, ntok=2):
         max_size=4)
     s["find"] = st.tuples(st.just("find"), idx, findspec, st.lists(st.sampled_from([1, 1, 2, 3, 5, 64]), min_size=1, max_size=4))
     s["use"] = st.tuples(st.just("use"), idx, idx, st.integers(0, 17), st.sampled_from([False, False, True]))
+    s["unwrap"] = st.tuples(st.just("unwrap"), idx, st.sampled_from(["aes", "generic", "des3"]), tri, tri, st.sampled_from([None, None, None, "flip", "trunc"]), bad_st(p_bad))
+    s["derive"] = st.tuples(st.just("derive"), idx, tri, tri, bad_st(p_bad))
+    s["setpin"] = st.tuples(st.just("setpin"), idx, st.integers(0, 3))
+    s["inittoken"] = st.tuples(st.just("inittoken"), st.integers(0, ntok - 1))
+    s["restart"] = st.tuples(st.just("restart"))
+    s["reinit"] = st.tuples(st.just("reinit"))
     if with_gen:
         s["gen"] = st.tuples(st.just("gen"), idx, st.sampled_from(["aes", "aes32", "des3", "generic"]), tri, tri, extras_st(2), bad_st(p_bad))
         s["genpair"] = st.tuples(st.just("genpair"), idx, st.sampled_from(["ec", "ed"]), tri, tri, st.integers(0, 1), bad_st(p_bad))
